@@ -474,6 +474,22 @@ Theorem C06_enter_establishes_ep : forall s l r s',
 Proof. exact enter_establishes_ep. Qed.
 Print Assumptions C06_enter_establishes_ep.
 
+(* ENTER right after a well-formed CALL (argc arguments, VArgc, VEp, VIp on the stack: len args + 3 <= sp) of a
+   paired closure whose BArgument indices are arguments ([arg_okb], decidable): NO panic at all — in particular
+   not the sp - 4 / bp - k underflows (40) *)
+Theorem C06_enter_total_no_panic : forall s l k,
+  closure_paired s l -> arg_okb l = true -> len (l_args l) + 3 <= sp s -> enter_frame s <> RPanic k.
+Proof. exact enter_total_no_panic. Qed.
+Print Assumptions C06_enter_total_no_panic.
+
+(* the monitor's ENTER clause implies these hypotheses *)
+Theorem C06_enter_monitor_sound : forall s l lam cep,
+  next_op s l = Some OEnter -> closureb s l = true ->
+  heap_deref (hp s) (acc s) = Ok (VClosure lam cep) ->
+  exists l2, closure_paired s l2 /\ arg_okb l2 = true /\ len (l_args l2) + 3 <= sp s.
+Proof. exact closureb_enter_sound. Qed.
+Print Assumptions C06_enter_monitor_sound.
+
 (* site 40 at RET and load_arg: total in a frame (C04 frame_at); RET restores the saved %ep %ip %bp *)
 Theorem C06_ret_total : forall s n e i b,
   frame_at s n e i b -> bp s + 4 < scap s ->
